@@ -8,7 +8,7 @@ Section Live.
   Variable answer : N -> N -> N.
   Variables bound qcap : N.
   Variable progs : N -> list call.
-  Hypothesis Hq : 1 <= qcap.
+  Hypothesis Hq : 2 <= qcap.
 
   Notation step := (ystep answer bound qcap).
   Notation run := (yrun answer bound qcap).
@@ -29,24 +29,33 @@ Section Live.
 
   Ltac live_unfold Hl := destruct Hl as [Hd Hf]; unfold ystep; rewrite Hf, Hd.
 
+  (* the server has not closed channel n *)
+  Definition opened (s : sys) (n : N) : Prop := yc_srv_closed (y_ch s n) = false.
+
+  Lemma opened_slot s n : YI s -> opened s n -> yc_slot_gone (y_ch s n) = false.
+  Proof. intros [_ Hi] Ho. destruct (Hi n) as (_ & HO & _). destruct (HO Ho) as (_ & _ & _ & _ & _ & _ & _ & H). exact H. Qed.
+
   (* 1. the whole mailbox of n goes to the out-buffer *)
-  Lemma phase_drain s n : live s -> YI s ->
+  Lemma phase_drain s n : live s -> YI s -> opened s n ->
     let s' := step s (ADrain n (length (yc_mail (y_ch s n)))) in
-    live s' /\ YI s' /\ staged s' n true false false false false /\ yc_wait (y_ch s' n) = yc_wait (y_ch s n).
+    live s' /\ YI s' /\ staged s' n true false false false false /\ yc_wait (y_ch s' n) = yc_wait (y_ch s n) /\ opened s' n.
   Proof.
-    intros Hl Hi. cbn zeta. split; [|split; [apply YInv_step; assumption|split]].
-    - live_unfold Hl. split; reflexivity.
-    - live_unfold Hl. constructor; try discriminate. intros _. cbn [y_ch]. rewrite yupd_same. cbn [yc_mail].
+    intros Hl Hi Ho. cbn zeta. pose proof (opened_slot Hi Ho) as Hg.
+    split; [|split; [apply YInv_step; assumption|split; [|split]]].
+    - live_unfold Hl. rewrite Hg. split; reflexivity.
+    - live_unfold Hl. rewrite Hg. constructor; try discriminate. intros _. cbn [orb y_ch]. rewrite yupd_same. cbn [ch_set_mail yc_mail].
       apply skipn_all.
-    - live_unfold Hl. cbn [y_ch]. rewrite yupd_same. reflexivity.
+    - live_unfold Hl. rewrite Hg. cbn [orb y_ch]. rewrite yupd_same. reflexivity.
+    - unfold opened. live_unfold Hl. rewrite Hg. cbn [orb y_ch]. rewrite yupd_same. exact Ho.
   Qed.
 
   (* 2. the whole out-buffer goes to the wire *)
-  Lemma phase_write s n : live s -> YI s -> staged s n true false false false false ->
+  Lemma phase_write s n : live s -> YI s -> staged s n true false false false false -> opened s n ->
     let s' := step s (AWrite (length (y_outbuf s))) in
-    live s' /\ YI s' /\ staged s' n true true false false false /\ yc_wait (y_ch s' n) = yc_wait (y_ch s n).
+    live s' /\ YI s' /\ staged s' n true true false false false /\ yc_wait (y_ch s' n) = yc_wait (y_ch s n) /\ opened s' n.
   Proof.
-    intros Hl Hi Hs. cbn zeta. split; [|split; [apply YInv_step; assumption|split]].
+    intros Hl Hi Hs Ho. cbn zeta. split; [|split; [apply YInv_step; assumption|split; [|split]]]; cycle 3.
+    { unfold opened. live_unfold Hl. exact Ho. }
     - live_unfold Hl. split; reflexivity.
     - live_unfold Hl. constructor; try discriminate; intros _; cbn [y_ch y_outbuf].
       + apply (st_mail Hs eq_refl).
@@ -55,44 +64,45 @@ Section Live.
   Qed.
 
   (* 3. the server reads everything that is on the wire *)
-  Lemma phase_srvread n : forall k s, live s -> YI s -> staged s n true true false false false ->
+  Lemma phase_srvread n : forall k s, live s -> YI s -> staged s n true true false false false -> opened s n ->
     length (y_outwire s) = k ->
     let s' := run s (repeat ASrvRead k) in
-    live s' /\ YI s' /\ staged s' n true true true false false /\ yc_wait (y_ch s' n) = yc_wait (y_ch s n).
+    live s' /\ YI s' /\ staged s' n true true true false false /\ yc_wait (y_ch s' n) = yc_wait (y_ch s n) /\ opened s' n.
   Proof.
-    induction k as [|k IH]; intros s Hl Hi Hs Hk.
-    - cbn [repeat]. change (run s []) with s. split; [exact Hl|]. split; [exact Hi|]. split; [|reflexivity].
+    induction k as [|k IH]; intros s Hl Hi Hs Ho Hk.
+    - cbn [repeat]. change (run s []) with s. split; [exact Hl|]. split; [exact Hi|]. split; [|split; [reflexivity|exact Ho]].
       constructor; try discriminate; intros _;
         [apply (st_mail Hs eq_refl)|apply (st_outbuf Hs eq_refl)|apply length_zero_iff_nil; exact Hk].
     - cbn [repeat]. change (ASrvRead :: repeat ASrvRead k) with ([ASrvRead] ++ repeat ASrvRead k).
       rewrite run_app. change (run s [ASrvRead]) with (step s ASrvRead).
-      destruct (y_outwire s) as [|[m x] rest] eqn:Ho; [discriminate|].
+      destruct (y_outwire s) as [|[m x] rest] eqn:Hw; [discriminate|].
       set (s1 := step s ASrvRead).
       assert (L1 : live s1).
-      { unfold s1. destruct Hl as [Hd Hf]. unfold ystep. rewrite Hf, Ho. split; [exact Hd|reflexivity]. }
+      { unfold s1. destruct Hl as [Hd Hf]. unfold ystep. rewrite Hf, Hw. split; [exact Hd|reflexivity]. }
       assert (I1 : YI s1) by (apply YInv_step; assumption).
       assert (E1 : y_outwire s1 = rest /\ y_outbuf s1 = y_outbuf s /\ yc_mail (y_ch s1 n) = yc_mail (y_ch s n)
-                   /\ yc_wait (y_ch s1 n) = yc_wait (y_ch s n)).
-      { unfold s1. destruct Hl as [Hd Hf]. unfold ystep. rewrite Hf, Ho. cbn [y_outwire y_outbuf y_ch].
+                   /\ yc_wait (y_ch s1 n) = yc_wait (y_ch s n) /\ yc_srv_closed (y_ch s1 n) = yc_srv_closed (y_ch s n)).
+      { unfold s1. destruct Hl as [Hd Hf]. unfold ystep. rewrite Hf, Hw. cbn [y_outwire y_outbuf y_ch].
         split; [reflexivity|]. split; [reflexivity|].
-        destruct (is_sync x); [|split; reflexivity].
-        unfold yupd. destruct (n =? m) eqn:E; [apply N.eqb_eq in E; subst m|]; split; reflexivity. }
-      destruct E1 as (E1 & E2 & E3 & E4).
+        destruct (is_sync x && negb (yc_srv_closed (y_ch s m))); [|repeat split].
+        unfold yupd. destruct (n =? m) eqn:E; [apply N.eqb_eq in E; subst m|]; repeat split. }
+      destruct E1 as (E1 & E2 & E3 & E4 & E5).
       assert (S1 : staged s1 n true true false false false).
       { constructor; try discriminate; intros _; [rewrite E3; apply (st_mail Hs eq_refl)|rewrite E2; apply (st_outbuf Hs eq_refl)]. }
+      assert (O1 : opened s1 n) by (unfold opened; rewrite E5; exact Ho).
       assert (K1 : length (y_outwire s1) = k) by (rewrite E1; cbn in Hk; lia).
-      destruct (IH s1 L1 I1 S1 K1) as (A & B & C & D). fold s1.
-      split; [exact A|]. split; [exact B|]. split; [exact C|]. rewrite D. exact E4.
+      destruct (IH s1 L1 I1 S1 O1 K1) as (A & B & C & D & F). fold s1.
+      split; [exact A|]. split; [exact B|]. split; [exact C|]. split; [rewrite D; exact E4|exact F].
   Qed.
 
   (* 4. the server answers everything it owes channel n *)
-  Lemma phase_answer n : forall k s, live s -> YI s -> staged s n true true true false false ->
+  Lemma phase_answer n : forall k s, live s -> YI s -> staged s n true true true false false -> opened s n ->
     length (yc_pend (y_ch s n)) = k ->
     let s' := run s (repeat (ASrvAnswer n) k) in
-    live s' /\ YI s' /\ staged s' n true true true true false /\ yc_wait (y_ch s' n) = yc_wait (y_ch s n).
+    live s' /\ YI s' /\ staged s' n true true true true false /\ yc_wait (y_ch s' n) = yc_wait (y_ch s n) /\ opened s' n.
   Proof.
-    induction k as [|k IH]; intros s Hl Hi Hs Hk.
-    - cbn [repeat]. change (run s []) with s. split; [exact Hl|]. split; [exact Hi|]. split; [|reflexivity].
+    induction k as [|k IH]; intros s Hl Hi Hs Ho Hk.
+    - cbn [repeat]. change (run s []) with s. split; [exact Hl|]. split; [exact Hi|]. split; [|split; [reflexivity|exact Ho]].
       constructor; try discriminate; intros _;
         [apply (st_mail Hs eq_refl)|apply (st_outbuf Hs eq_refl)|apply (st_outwire Hs eq_refl)|apply length_zero_iff_nil; exact Hk].
     - cbn [repeat]. change (ASrvAnswer n :: repeat (ASrvAnswer n) k) with ([ASrvAnswer n] ++ repeat (ASrvAnswer n) k).
@@ -103,86 +113,135 @@ Section Live.
       { unfold s1. destruct Hl as [Hd Hf]. unfold ystep. rewrite Hf, Hp. split; [exact Hd|reflexivity]. }
       assert (I1 : YI s1) by (apply YInv_step; assumption).
       assert (E1 : yc_pend (y_ch s1 n) = rest /\ y_outwire s1 = y_outwire s /\ y_outbuf s1 = y_outbuf s /\
-                   yc_mail (y_ch s1 n) = yc_mail (y_ch s n) /\ yc_wait (y_ch s1 n) = yc_wait (y_ch s n)).
+                   yc_mail (y_ch s1 n) = yc_mail (y_ch s n) /\ yc_wait (y_ch s1 n) = yc_wait (y_ch s n) /\
+                   yc_srv_closed (y_ch s1 n) = yc_srv_closed (y_ch s n)).
       { unfold s1. destruct Hl as [Hd Hf]. unfold ystep. rewrite Hf, Hp. cbn [y_outwire y_outbuf y_ch].
         rewrite yupd_same. repeat split. }
-      destruct E1 as (E1 & E2 & E3 & E4 & E5).
+      destruct E1 as (E1 & E2 & E3 & E4 & E5 & E6).
       assert (S1 : staged s1 n true true true false false).
       { constructor; try discriminate; intros _;
           [rewrite E4; apply (st_mail Hs eq_refl)|rewrite E3; apply (st_outbuf Hs eq_refl)|rewrite E2; apply (st_outwire Hs eq_refl)]. }
+      assert (O1 : opened s1 n) by (unfold opened; rewrite E6; exact Ho).
       assert (K1 : length (yc_pend (y_ch s1 n)) = k) by (rewrite E1; cbn in Hk; lia).
-      destruct (IH s1 L1 I1 S1 K1) as (A & B & C & D). fold s1.
-      split; [exact A|]. split; [exact B|]. split; [exact C|]. rewrite D. exact E5.
+      destruct (IH s1 L1 I1 S1 O1 K1) as (A & B & C & D & F). fold s1.
+      split; [exact A|]. split; [exact B|]. split; [exact C|]. split; [rewrite D; exact E5|exact F].
+  Qed.
+
+  (* one read by the I/O thread in a live state satisfying the invariant: it neither fails nor
+     touches anything but the reply queue (and, for a Close, the mailbox and the slot) of the
+     channel the frame is for *)
+  Lemma read_one s m it rest : live s -> YI s -> y_inwire s = (m, it) :: rest ->
+    let s1 := step s ARead in
+    live s1 /\ YI s1 /\ y_inwire s1 = rest /\ y_outbuf s1 = y_outbuf s /\ y_outwire s1 = y_outwire s /\
+    forall n, yc_wait (y_ch s1 n) = yc_wait (y_ch s n) /\ yc_pend (y_ch s1 n) = yc_pend (y_ch s n) /\
+              yc_srv_closed (y_ch s1 n) = yc_srv_closed (y_ch s n) /\
+              (yc_mail (y_ch s1 n) = yc_mail (y_ch s n) \/ yc_mail (y_ch s1 n) = []) /\
+              (yc_slot_gone (y_ch s n) = true -> yc_slot_gone (y_ch s1 n) = true) /\
+              (n = m -> it = WClose -> yc_slot_gone (y_ch s1 n) = true).
+  Proof.
+    intros Hl Hi Hw. cbn zeta.
+    pose proof (YInv_step bound Hq ARead Hi) as I1.
+    pose proof (proj1 I1) as F1.
+    destruct Hl as [Hd Hf].
+    unfold ystep in I1, F1 |- *. rewrite Hf, Hd, Hw in I1, F1 |- *.
+    destruct (yc_slot_gone (y_ch s m)) eqn:Hg; [cbn in F1; discriminate|].
+    destruct (N.of_nat (length (yc_replyq (y_ch s m))) <? qcap) eqn:Hroom; [|cbn in F1; discriminate].
+    destruct it as [v|].
+    - split; [split; reflexivity|]. split; [exact I1|]. cbn [y_inwire y_outbuf y_outwire y_ch].
+      split; [reflexivity|]. split; [reflexivity|]. split; [reflexivity|].
+      intro n. unfold yupd. destruct (n =? m) eqn:E; [apply N.eqb_eq in E; subst m|].
+      + cbn. split; [reflexivity|]. split; [reflexivity|]. split; [reflexivity|]. split; [left; reflexivity|].
+        split; [auto|]. intros _ X; discriminate.
+      + apply N.eqb_neq in E. split; [reflexivity|]. split; [reflexivity|]. split; [reflexivity|]. split; [left; reflexivity|].
+        split; [auto|]. intro; contradiction.
+    - split; [split; reflexivity|]. split; [exact I1|]. cbn [y_inwire y_outbuf y_outwire y_ch].
+      split; [reflexivity|]. split; [reflexivity|]. split; [reflexivity|].
+      intro n. unfold yupd. destruct (n =? m) eqn:E; [apply N.eqb_eq in E; subst m|].
+      + cbn. split; [reflexivity|]. split; [reflexivity|]. split; [reflexivity|]. split; [right; reflexivity|].
+        split; auto.
+      + apply N.eqb_neq in E. split; [reflexivity|]. split; [reflexivity|]. split; [reflexivity|]. split; [left; reflexivity|].
+        split; [auto|]. intro; contradiction.
   Qed.
 
   (* 5. the I/O thread reads everything that is on the inbound wire: by the invariant every
-     reply finds room in its queue *)
-  Lemma phase_read n : forall k s, live s -> YI s -> staged s n true true true true false ->
-    length (y_inwire s) = k ->
+     reply - and every Close - finds room in its queue *)
+  Lemma read_all : forall k s, live s -> YI s -> length (y_inwire s) = k ->
     let s' := run s (repeat ARead k) in
-    live s' /\ YI s' /\ staged s' n true true true true true /\ yc_wait (y_ch s' n) = yc_wait (y_ch s n).
+    live s' /\ YI s' /\ y_inwire s' = [] /\ y_outbuf s' = y_outbuf s /\ y_outwire s' = y_outwire s /\
+    forall n, yc_wait (y_ch s' n) = yc_wait (y_ch s n) /\ yc_pend (y_ch s' n) = yc_pend (y_ch s n) /\
+              yc_srv_closed (y_ch s' n) = yc_srv_closed (y_ch s n) /\
+              (yc_mail (y_ch s' n) = yc_mail (y_ch s n) \/ yc_mail (y_ch s' n) = []) /\
+              (yc_slot_gone (y_ch s n) = true -> yc_slot_gone (y_ch s' n) = true) /\
+              (In (n, WClose) (y_inwire s) -> yc_slot_gone (y_ch s' n) = true).
   Proof.
-    induction k as [|k IH]; intros s Hl Hi Hs Hk.
-    - cbn [repeat]. change (run s []) with s. split; [exact Hl|]. split; [exact Hi|]. split; [|reflexivity].
-      constructor; try discriminate; intros _;
-        [apply (st_mail Hs eq_refl)|apply (st_outbuf Hs eq_refl)|apply (st_outwire Hs eq_refl)|apply (st_pend Hs eq_refl)
-        |apply length_zero_iff_nil; exact Hk].
+    induction k as [|k IH]; intros s Hl Hi Hk.
+    - cbn [repeat]. change (run s []) with s. apply length_zero_iff_nil in Hk.
+      split; [exact Hl|]. split; [exact Hi|]. split; [exact Hk|]. split; [reflexivity|]. split; [reflexivity|].
+      intro n. repeat split; auto. rewrite Hk. intros [].
     - cbn [repeat]. change (ARead :: repeat ARead k) with ([ARead] ++ repeat ARead k).
       rewrite run_app. change (run s [ARead]) with (step s ARead).
-      destruct (y_inwire s) as [|[m v] rest] eqn:Hw; [discriminate|].
-      pose proof (YInv_step bound Hq ARead Hi) as I1.
-      pose proof (proj1 I1) as F1.
-      destruct Hl as [Hd Hf].
-      unfold ystep in I1, F1 |- *. rewrite Hf, Hd, Hw in I1, F1 |- *.
-      destruct (N.of_nat (length (yc_replyq (y_ch s m))) <? qcap) eqn:Hroom; [|cbn in F1; discriminate].
-      match goal with |- context [run ?x _] => set (s1 := x) in * end.
-      assert (E4 : yc_mail (y_ch s1 n) = yc_mail (y_ch s n) /\ yc_pend (y_ch s1 n) = yc_pend (y_ch s n) /\
-                   yc_wait (y_ch s1 n) = yc_wait (y_ch s n)).
-      { unfold s1. cbn [y_ch]. unfold yupd. destruct (n =? m) eqn:E; [apply N.eqb_eq in E; subst m|]; repeat split. }
-      destruct E4 as (E4 & E5 & E6).
-      assert (L1 : live s1) by (split; reflexivity).
-      assert (S1 : staged s1 n true true true true false).
-      { constructor; try discriminate; intros _;
-          [rewrite E4; apply (st_mail Hs eq_refl)|apply (st_outbuf Hs eq_refl)
-          |apply (st_outwire Hs eq_refl)|rewrite E5; apply (st_pend Hs eq_refl)]. }
-      assert (K1 : length (y_inwire s1) = k) by (unfold s1; cbn [y_inwire]; cbn in Hk; lia).
-      destruct (IH s1 L1 I1 S1 K1) as (A & B & C & D).
-      split; [exact A|]. split; [exact B|]. split; [exact C|]. rewrite D. exact E6.
+      destruct (y_inwire s) as [|[m it] rest] eqn:Hw; [discriminate|].
+      destruct (read_one Hl Hi Hw) as (L1 & I1 & W1 & B1 & O1 & C1).
+      set (s1 := step s ARead) in *.
+      assert (K1 : length (y_inwire s1) = k) by (rewrite W1; cbn in Hk; lia).
+      destruct (IH s1 L1 I1 K1) as (A & B & C & D & E & F).
+      split; [exact A|]. split; [exact B|]. split; [exact C|]. split; [congruence|]. split; [congruence|].
+      intro n. destruct (F n) as (F1 & F2 & F3 & F4 & F5 & F6). destruct (C1 n) as (G1 & G2 & G3 & G4 & G5 & G6).
+      split; [congruence|]. split; [congruence|]. split; [congruence|]. split; [|split].
+      + destruct F4 as [F4|F4]; [|right; exact F4]. destruct G4 as [G4|G4]; [left|right]; congruence.
+      + intro X. apply F5, G5, X.
+      + intros [X|X].
+        * inversion X; subst. apply F5. apply G6; reflexivity.
+        * apply F6. rewrite W1. exact X.
+  Qed.
+
+  Lemma phase_read n s : live s -> YI s -> staged s n true true true true false -> opened s n ->
+    let s' := run s (repeat ARead (length (y_inwire s))) in
+    live s' /\ YI s' /\ staged s' n true true true true true /\ yc_wait (y_ch s' n) = yc_wait (y_ch s n) /\ opened s' n.
+  Proof.
+    intros Hl Hi Hs Ho. destruct (read_all Hl Hi eq_refl) as (A & B & C & D & E & F). cbn zeta.
+    destruct (F n) as (F1 & F2 & F3 & F4 & _).
+    split; [exact A|]. split; [exact B|]. split; [|split; [exact F1|unfold opened; rewrite F3; exact Ho]].
+    constructor; intros _.
+    - destruct F4 as [F4|F4]; [rewrite F4; apply (st_mail Hs eq_refl)|exact F4].
+    - rewrite D. apply (st_outbuf Hs eq_refl).
+    - rewrite E. apply (st_outwire Hs eq_refl).
+    - rewrite F2. apply (st_pend Hs eq_refl).
+    - exact C.
   Qed.
 
   (* 6. with every stage behind it empty, a blocked caller's one item is in its reply queue *)
-  Lemma staged_all_reply s n : YI s -> staged s n true true true true true ->
+  Lemma staged_all_reply s n : YI s -> staged s n true true true true true -> opened s n ->
     yc_wait (y_ch s n) = true -> yc_failed (y_ch s n) = false -> yc_replyq (y_ch s n) <> [].
   Proof.
-    intros [_ Hi] Hs Hw Hfl. destruct (Hi n) as (_ & H2 & _). specialize (H2 Hfl). rewrite Hw in H2.
-    unfold inflight in H2.
+    intros [_ Hi] Hs Ho Hw Hfl. destruct (Hi n) as (_ & HO & _). destruct (HO Ho) as (_ & _ & H3 & _).
+    specialize (H3 Hfl). rewrite Hw in H3. unfold inflight in H3.
     rewrite (st_mail Hs eq_refl), (st_outbuf Hs eq_refl), (st_outwire Hs eq_refl), (st_pend Hs eq_refl),
-            (st_inwire Hs eq_refl) in H2.
-    cbn in H2. rewrite app_nil_r in H2. intro E. rewrite E in H2. discriminate.
+            (st_inwire Hs eq_refl) in H3.
+    cbn in H3. intro E. rewrite E in H3. discriminate.
   Qed.
 
-  (* THE CONTINUATION *)
+  Lemma open_not_failed s n : YI s -> live s -> opened s n -> yc_failed (y_ch s n) = false.
+  Proof.
+    intros [_ Hi] [Hd _] Ho. destruct (yc_failed (y_ch s n)) eqn:E; [|reflexivity].
+    destruct (Hi n) as (_ & HO & _). destruct (HO Ho) as (_ & _ & _ & H4 & _). destruct (H4 E). congruence.
+  Qed.
+
+  (* THE CONTINUATION, for a channel the server has not closed *)
   Theorem sys_can_complete s n :
-    YI s -> live s -> yc_wait (y_ch s n) = true ->
+    YI s -> live s -> opened s n -> yc_wait (y_ch s n) = true ->
     exists cont, ~ In ADie cont /\ yc_wait (y_ch (run s cont) n) = false /\ live (run s cont).
   Proof.
-    intros Hi Hl Hw.
-    assert (Hfl0 : yc_failed (y_ch s n) = false).
-    { destruct (yc_failed (y_ch s n)) eqn:E; [|reflexivity].
-      destruct Hi as [_ Hi]. destruct (Hi n) as (_ & _ & _ & H4 & _). destruct (H4 E) as [Hd _].
-      destruct Hl as [Hd' _]. congruence. }
+    intros Hi Hl Ho Hw.
     set (a1 := ADrain n (length (yc_mail (y_ch s n)))).
-    destruct (phase_drain n Hl Hi) as (L1 & I1 & S1 & W1). fold a1 in L1, I1, S1, W1. set (s1 := step s a1) in *.
-    destruct (phase_write L1 I1 S1) as (L2 & I2 & S2 & W2). set (a2 := AWrite (length (y_outbuf s1))) in *. set (s2 := step s1 a2) in *.
-    destruct (phase_srvread L2 I2 S2 eq_refl) as (L3 & I3 & S3 & W3). set (c3 := repeat ASrvRead (length (y_outwire s2))) in *. set (s3 := run s2 c3) in *.
-    destruct (phase_answer L3 I3 S3 eq_refl) as (L4 & I4 & S4 & W4). set (c4 := repeat (ASrvAnswer n) (length (yc_pend (y_ch s3 n)))) in *. set (s4 := run s3 c4) in *.
-    destruct (phase_read L4 I4 S4 eq_refl) as (L5 & I5 & S5 & W5). set (c5 := repeat ARead (length (y_inwire s4))) in *. set (s5 := run s4 c5) in *.
+    destruct (phase_drain Hl Hi Ho) as (L1 & I1 & S1 & W1 & O1). fold a1 in L1, I1, S1, W1, O1. set (s1 := step s a1) in *.
+    destruct (phase_write L1 I1 S1 O1) as (L2 & I2 & S2 & W2 & O2). set (a2 := AWrite (length (y_outbuf s1))) in *. set (s2 := step s1 a2) in *.
+    destruct (phase_srvread L2 I2 S2 O2 eq_refl) as (L3 & I3 & S3 & W3 & O3). set (c3 := repeat ASrvRead (length (y_outwire s2))) in *. set (s3 := run s2 c3) in *.
+    destruct (phase_answer L3 I3 S3 O3 eq_refl) as (L4 & I4 & S4 & W4 & O4). set (c4 := repeat (ASrvAnswer n) (length (yc_pend (y_ch s3 n)))) in *. set (s4 := run s3 c4) in *.
+    destruct (phase_read L4 I4 S4 O4) as (L5 & I5 & S5 & W5 & O5). set (c5 := repeat ARead (length (y_inwire s4))) in *. set (s5 := run s4 c5) in *.
     assert (Hw5 : yc_wait (y_ch s5 n) = true) by (rewrite W5, W4, W3, W2, W1; exact Hw).
-    assert (Hfl5 : yc_failed (y_ch s5 n) = false).
-    { destruct (yc_failed (y_ch s5 n)) eqn:E; [|reflexivity].
-      destruct I5 as [_ I5]. destruct (I5 n) as (_ & _ & _ & H4 & _). destruct (H4 E) as [Hd _].
-      destruct L5 as [Hd' _]. congruence. }
-    pose proof (staged_all_reply I5 S5 Hw5 Hfl5) as Hr.
+    pose proof (open_not_failed I5 L5 O5) as Hfl5.
+    pose proof (staged_all_reply I5 S5 O5 Hw5 Hfl5) as Hr.
     exists ([a1; a2] ++ c3 ++ c4 ++ c5 ++ [ARecv n]). split; [|split].
     - intro Hin. apply in_app_or in Hin. destruct Hin as [Hin|Hin].
       + destruct Hin as [E|[E|[]]]; discriminate.
@@ -192,22 +251,100 @@ Section Live.
         destruct Hin as [E|[]]; discriminate.
     - rewrite !run_app. change (run s [a1; a2]) with s2. fold s3. fold s4. fold s5.
       cbn [yrun fold_left]. destruct L5 as [Hd Hf]. unfold ystep. rewrite Hf, Hw5.
-      destruct (yc_replyq (y_ch s5 n)); [contradiction|]. cbn [with_ch y_ch]. rewrite yupd_same. reflexivity.
+      destruct (yc_replyq (y_ch s5 n)) as [|[v|] r]; [contradiction| |]; cbn [with_ch y_ch]; rewrite yupd_same; reflexivity.
     - rewrite !run_app. change (run s [a1; a2]) with s2. fold s3. fold s4. fold s5.
       cbn [yrun fold_left]. pose proof L5 as [Hd Hf]. unfold ystep. rewrite Hf, Hw5.
-      destruct (yc_replyq (y_ch s5 n)); [contradiction|]. split; [exact Hd|exact Hf].
+      destruct (yc_replyq (y_ch s5 n)) as [|[v|] r]; [contradiction| |]; split; assumption.
+  Qed.
+
+  (* the server's Close is never lost: a channel the server has closed has its Close on the wire
+     to the client until the I/O thread has processed it *)
+  Definition CInv (s : sys) : Prop :=
+    forall n, yc_srv_closed (y_ch s n) = true -> yc_slot_gone (y_ch s n) = true \/ In (n, WClose) (y_inwire s).
+
+  Lemma CInv_init : CInv (init_sys progs).
+  Proof. intros n H. discriminate. Qed.
+
+  Lemma CInv_step s a : YI s -> CInv s -> CInv (step s a).
+  Proof.
+    intros Hi Hc. pose proof (YInv_step bound Hq a Hi) as [F1 _]. revert F1.
+    unfold ystep. destruct (y_fail s) eqn:Hf; [intros _; exact Hc|].
+    destruct a as [n|n|n k|k| |n|n| |].
+    - intros _. destruct (yc_wait (y_ch s n) || yc_failed (y_ch s n)); [exact Hc|].
+      destruct (yc_prog (y_ch s n)); [exact Hc|].
+      destruct (y_dead s || yc_slot_gone (y_ch s n)); [|destruct (_ <? bound); [|exact Hc]];
+        intros m; cbn [with_ch y_ch y_inwire]; unfold yupd; (destruct (m =? n) eqn:E; [apply N.eqb_eq in E; subst m; cbn; apply Hc|apply Hc]).
+    - intros _. destruct (yc_wait (y_ch s n)); [|exact Hc].
+      destruct (yc_replyq (y_ch s n)) as [|[v|] r]; [destruct (y_dead s || yc_slot_gone (y_ch s n)); [|exact Hc]| |];
+        intros m; cbn [with_ch y_ch y_inwire]; unfold yupd; (destruct (m =? n) eqn:E; [apply N.eqb_eq in E; subst m; cbn; apply Hc|apply Hc]).
+    - intros _. destruct (y_dead s || yc_slot_gone (y_ch s n)); [exact Hc|].
+      intros m; cbn [y_ch y_inwire]; unfold yupd; (destruct (m =? n) eqn:E; [apply N.eqb_eq in E; subst m; cbn; apply Hc|apply Hc]).
+    - intros _. destruct (y_dead s); exact Hc.
+    - intros _. destruct (y_outwire s) as [|[n x] rest]; [exact Hc|].
+      intros m; cbn [y_ch y_inwire]. destruct (is_sync x && negb (yc_srv_closed (y_ch s n))); [|apply Hc].
+      unfold yupd; (destruct (m =? n) eqn:E; [apply N.eqb_eq in E; subst m; cbn; apply Hc|apply Hc]).
+    - intros _. destruct (yc_pend (y_ch s n)); [exact Hc|].
+      intros m; cbn [y_ch y_inwire]. intro X.
+      assert (Y : yc_srv_closed (y_ch s m) = true).
+      { revert X. unfold yupd. destruct (m =? n) eqn:E; [apply N.eqb_eq in E; subst m|]; cbn; auto. }
+      destruct (Hc m Y) as [Z|Z]; [left|right; apply in_or_app; left; exact Z].
+      unfold yupd. destruct (m =? n) eqn:E; [apply N.eqb_eq in E; subst m|]; cbn; auto.
+    - intros _. destruct (yc_srv_closed (y_ch s n)) eqn:Ecl; [exact Hc|].
+      intros m; cbn [y_ch y_inwire]. unfold yupd. destruct (m =? n) eqn:E; [apply N.eqb_eq in E; subst m|].
+      + intros _. right. apply in_or_app. right. left. reflexivity.
+      + intro X. destruct (Hc m X) as [Z|Z]; [left; exact Z|right; apply in_or_app; left; exact Z].
+    - destruct (y_dead s); [intros _; exact Hc|].
+      destruct (y_inwire s) as [|[n it] rest] eqn:Hw; [intros _; exact Hc|].
+      destruct (yc_slot_gone (y_ch s n)) eqn:Hg; [cbn; discriminate|].
+      destruct (_ <? qcap); [|cbn; discriminate].
+      destruct it as [v|]; intros _ m; cbn [y_ch y_inwire]; unfold yupd;
+        (destruct (m =? n) eqn:E; [apply N.eqb_eq in E; subst m|apply N.eqb_neq in E]); cbn.
+      + intro X. destruct (Hc n X) as [Z|Z]; [left; exact Z|]. rewrite Hw in Z. destruct Z as [Z|Z]; [discriminate|right; exact Z].
+      + intro X. destruct (Hc m X) as [Z|Z]; [left; exact Z|]. rewrite Hw in Z. destruct Z as [Z|Z]; [inversion Z; congruence|right; exact Z].
+      + intros _. left. reflexivity.
+      + intro X. destruct (Hc m X) as [Z|Z]; [left; exact Z|]. rewrite Hw in Z. destruct Z as [Z|Z]; [inversion Z; congruence|right; exact Z].
+    - intros _. exact Hc.
+  Qed.
+
+  Lemma YC_run sched : forall s, YI s -> CInv s -> YI (run s sched) /\ CInv (run s sched).
+  Proof.
+    induction sched as [|a sched IH]; intros s Hi Hc; [split; assumption|].
+    cbn [yrun fold_left]. apply IH; [apply YInv_step; assumption|apply CInv_step; assumption].
+  Qed.
+
+  (* THE CONTINUATION, for a channel the server has closed (C09): the I/O thread reads what is
+     on the wire - the Close among it - and the blocked caller's recv returns *)
+  Theorem sys_closed_completes s n :
+    YI s -> CInv s -> live s -> yc_srv_closed (y_ch s n) = true -> yc_wait (y_ch s n) = true ->
+    let cont := repeat ARead (length (y_inwire s)) ++ [ARecv n] in
+    yc_wait (y_ch (run s cont) n) = false /\ live (run s cont).
+  Proof.
+    intros Hi Hc Hl Hcl Hw. cbn zeta. rewrite run_app.
+    destruct (read_all Hl Hi eq_refl) as (A & B & C & D & E & F).
+    set (s1 := run s (repeat ARead (length (y_inwire s)))) in *.
+    destruct (F n) as (F1 & _ & _ & _ & F5 & F6).
+    assert (Hg : yc_slot_gone (y_ch s1 n) = true) by (destruct (Hc n Hcl) as [Z|Z]; auto).
+    cbn [yrun fold_left]. destruct A as [Hd Hf]. unfold ystep. rewrite Hf, F1, Hw, Hg, Hd. cbn [orb].
+    destruct (yc_replyq (y_ch s1 n)) as [|[v|] r]; cbn [with_ch y_ch y_dead y_fail]; rewrite yupd_same;
+      (split; [reflexivity|split; assumption]).
   Qed.
 
   (* ... from every REACHABLE state: a blocked caller can always be served while the I/O
-     thread lives - the system never deadlocks *)
+     thread lives, whether the server has closed its channel or not - the system never
+     deadlocks *)
   Theorem sys_never_stuck sched n :
     let s := run (init_sys progs) sched in
     y_dead s = false -> yc_wait (y_ch s n) = true ->
     exists cont, ~ In ADie cont /\ yc_wait (y_ch (run s cont) n) = false.
   Proof.
     cbn zeta. intros Hd Hw.
-    pose proof (YInv_run bound Hq sched (YInv_init answer progs)) as Hi.
-    destruct (@sys_can_complete _ n Hi (conj Hd (proj1 Hi)) Hw) as (cont & A & B & _).
-    exists cont. split; assumption.
+    destruct (YC_run sched (YInv_init answer progs Hq) CInv_init) as [Hi Hc].
+    set (s := run (init_sys progs) sched) in *.
+    destruct (yc_srv_closed (y_ch s n)) eqn:Ecl.
+    - destruct (@sys_closed_completes s n Hi Hc (conj Hd (proj1 Hi)) Ecl Hw) as [A _].
+      eexists. split; [|exact A].
+      intro Hin. apply in_app_or in Hin. destruct Hin as [Hin|[E|[]]]; [apply repeat_spec in Hin|]; discriminate.
+    - destruct (@sys_can_complete _ n Hi (conj Hd (proj1 Hi)) Ecl Hw) as (cont & A & B & _).
+      exists cont. split; assumption.
   Qed.
 End Live.
